@@ -1,8 +1,193 @@
+/-
+  Driver handlers of component `aave` (JSON protocol).
+
+  `aave_step`  {ctx, env, state, op}            → {outcome, tag, result, state}      one call on the market object
+  `aave_spec`  {ctx, env, supplies, borrows, view} → {outcome, tag, result}          the view recomputed from scratch
+-/
 import Demeter.Drv.Json
+import Demeter.Aave
 namespace Demeter.Drv
-open Demeter Lean
+open Demeter Demeter.Aave Lean
+
+namespace AaveJ
+
+def pairs {α : Type} (j : Json) (k : String) (f : Json → Except String α) : Except String (AList String α) := do
+  let arr ← jArr j k
+  arr.toList.mapM (fun e => match e with
+    | .arr #[.str key, v] => do let x ← f v; pure (key, x)
+    | _ => throw s!"field {k}: expected [key, value] pairs")
+
+def tokStatus (j : Json) : Except String TokStatus := do
+  pure { liqRate := ← jRat j "liqRate", varRate := ← jRat j "varRate", liqIdx := ← jRat j "liqIdx", varIdx := ← jRat j "varIdx" }
+
+def risk (j : Json) : Except String Risk := do
+  pure { canColl := ← jBool j "canColl", ltv := ← jRat j "ltv", lt := ← jRat j "lt", bonus := ← jRat j "bonus",
+         canBorrow := ← jBool j "canBorrow" }
+
+def env (j : Json) : Except String Env := do
+  pure { status := ← pairs j "status" tokStatus, price := ← pairs j "price" jRatOf, risk := ← pairs j "risk" risk,
+         isOpen := ← jBool j "isOpen" }
+
+def supplyInfo (j : Json) : Except String SupplyInfo := do
+  pure { base := ← jRat j "base", coll := ← jBool j "coll", beginIdx := ← jRat j "beginIdx" }
+
+def borrowInfo (j : Json) : Except String BorrowInfo := do
+  pure { base := ← jRat j "base", beginIdx := ← jRat j "beginIdx" }
+
+def supplyV (j : Json) : Except String SupplyV := do
+  pure { base := ← jRat j "base", coll := ← jBool j "coll", amount := ← jRat j "amount", apy := ← jRat j "apy",
+         value := ← jRat j "value", beginIdx := ← jRat j "beginIdx" }
+
+def borrowV (j : Json) : Except String BorrowV := do
+  pure { base := ← jRat j "base", amount := ← jRat j "amount", apy := ← jRat j "apy",
+         value := ← jRat j "value", beginIdx := ← jRat j "beginIdx" }
+
+def cache {α : Type} (j : Json) (k : String) (f : Json → Except String α) : Except String (Cache α) := do
+  let c ← jObj j k
+  pure { empty := ← jBool c "empty", val := ← pairs c "val" f }
+
+def state (j : Json) : Except String St := do
+  pure { supplies := ← pairs j "supplies" supplyInfo, borrows := ← pairs j "borrows" borrowInfo,
+         collC := ← cache j "collC" jRatOf, supAmtC := ← cache j "supAmtC" jRatOf, supC := ← cache j "supC" supplyV,
+         borAmtC := ← cache j "borAmtC" jRatOf, borC := ← cache j "borC" borrowV,
+         wallet := ← pairs j "wallet" jRatOf, actions := [], hasUpdate := ← jBool j "hasUpdate" }
+
+def optRat (j : Json) (k : String) : Except String (Option Rat) :=
+  match jOpt j k with
+  | none => pure none
+  | some v => do let r ← jRatOf v; pure (some r)
+
+def optStr (j : Json) (k : String) : Except String (Option String) :=
+  match jOpt j k with
+  | none => pure none
+  | some (.str s) => pure (some s)
+  | some v => throw s!"field {k}: expected string or null, got {v.compress}"
+
+def view (j : Json) : Except String View := do
+  let name ← jStr j "view"
+  match name with
+  | "suppliesValue" => pure .suppliesValue
+  | "totalSupplyValue" => pure .totalSupplyValue
+  | "collateralValue" => pure .collateralValue
+  | "totalCollateralValue" => pure .totalCollateralValue
+  | "borrowsValue" => pure .borrowsValue
+  | "totalBorrowsValue" => pure .totalBorrowsValue
+  | "supplies" => pure .supplies
+  | "borrows" => pure .borrows
+  | "liquidationThreshold" => pure .liquidationThreshold
+  | "maxLtv" => pure .maxLtv
+  | "ltv" => pure .ltv
+  | "healthFactor" => pure .healthFactor
+  | "supplyApy" => pure .supplyApy
+  | "borrowApy" => pure .borrowApy
+  | "totalApy" => pure .totalApy
+  | "marketBalance" => pure .marketBalance
+  | "getSupply" => do pure (.getSupply (← jStr j "tok"))
+  | "getBorrow" => do pure (.getBorrow (← jStr j "tok"))
+  | "maxBorrowAmount" => do pure (.maxBorrowAmount (← jStr j "tok"))
+  | v => throw s!"unknown view {v}"
+
+def op (j : Json) : Except String Op := do
+  let kind ← jStr j "kind"
+  match kind with
+  | "supply" => do pure (.supply (← jStr j "tok") (← jRat j "amount") (← jBool j "coll"))
+  | "withdraw" => do pure (.withdraw (← jStr j "tok") (← optRat j "amount"))
+  | "borrow" => do pure (.borrow (← jStr j "tok") (← optRat j "amount"))
+  | "repay" => do pure (.repay (← jStr j "tok") (← optRat j "amount") (← jBool j "withColl") (← optStr j "collTok"))
+  | "changeCollateral" => do pure (.changeCollateral (← jStr j "tok") (← jBool j "coll"))
+  | "update" => pure .update
+  | "newBar" => pure .newBar
+  | "read" => do pure (.read (← view j))
+  | k => throw s!"unknown op {k}"
+
+/-! ### encoding -/
+
+def xratJ : XRat → Json
+  | .inf => .str "inf"
+  | .fin r => ratJ r
+
+def pairsJ {α : Type} (m : AList String α) (f : α → Json) : Json :=
+  .arr (m.map (fun p => Json.arr #[.str p.1, f p.2])).toArray
+
+def supplyInfoJ (v : SupplyInfo) : Json :=
+  Json.mkObj [("base", ratJ v.base), ("coll", .bool v.coll), ("beginIdx", ratJ v.beginIdx)]
+def borrowInfoJ (v : BorrowInfo) : Json :=
+  Json.mkObj [("base", ratJ v.base), ("beginIdx", ratJ v.beginIdx)]
+def supplyVJ (v : SupplyV) : Json :=
+  Json.mkObj [("base", ratJ v.base), ("coll", .bool v.coll), ("amount", ratJ v.amount), ("apy", ratJ v.apy),
+              ("value", ratJ v.value), ("beginIdx", ratJ v.beginIdx)]
+def borrowVJ (v : BorrowV) : Json :=
+  Json.mkObj [("base", ratJ v.base), ("amount", ratJ v.amount), ("apy", ratJ v.apy),
+              ("value", ratJ v.value), ("beginIdx", ratJ v.beginIdx)]
+def cacheJ {α : Type} (c : Cache α) (f : α → Json) : Json :=
+  Json.mkObj [("empty", .bool c.empty), ("val", pairsJ c.val f)]
+
+def actionJ : Action → Json
+  | .supply t a c af => Json.mkObj [("kind", "supply"), ("token", .str t), ("amount", ratJ a), ("coll", .bool c), ("after", ratJ af)]
+  | .withdraw t a af => Json.mkObj [("kind", "withdraw"), ("token", .str t), ("amount", ratJ a), ("after", ratJ af)]
+  | .borrow t a af => Json.mkObj [("kind", "borrow"), ("token", .str t), ("amount", ratJ a), ("after", ratJ af)]
+  | .repay t a af => Json.mkObj [("kind", "repay"), ("token", .str t), ("amount", ratJ a), ("after", ratJ af)]
+  | .liquidation c d tc cu dl hb ha ca da =>
+    Json.mkObj [("kind", "liquidation"), ("collTok", .str c), ("debtTok", .str d), ("toCover", ratJ tc),
+                ("collUsed", ratJ cu), ("debtLiq", ratJ dl), ("hfBefore", xratJ hb), ("hfAfter", xratJ ha),
+                ("collAfter", ratJ ca), ("debtAfter", ratJ da)]
+
+def stateJ (s : St) : Json :=
+  Json.mkObj [("supplies", pairsJ s.supplies supplyInfoJ), ("borrows", pairsJ s.borrows borrowInfoJ),
+              ("collC", cacheJ s.collC ratJ), ("supAmtC", cacheJ s.supAmtC ratJ), ("supC", cacheJ s.supC supplyVJ),
+              ("borAmtC", cacheJ s.borAmtC ratJ), ("borC", cacheJ s.borC borrowVJ),
+              ("wallet", pairsJ s.wallet ratJ), ("actions", .arr (s.actions.map actionJ).toArray),
+              ("hasUpdate", .bool s.hasUpdate)]
+
+def balanceJ (b : Balance) : Json :=
+  Json.mkObj [("netValue", ratJ b.netValue), ("suppliesCount", natJ b.suppliesCount), ("borrowsCount", natJ b.borrowsCount),
+              ("liqThreshold", xratJ b.liqThreshold), ("healthFactor", xratJ b.healthFactor),
+              ("borrowsValue", ratJ b.borrowsValue), ("suppliesValue", ratJ b.suppliesValue),
+              ("collateralsValue", ratJ b.collateralsValue), ("maxLtv", xratJ b.maxLtv), ("ltv", xratJ b.ltv),
+              ("supplyApy", ratJ b.supplyApy), ("borrowApy", ratJ b.borrowApy), ("netApy", ratJ b.netApy)]
+
+def valJ : Val → Json
+  | .unit => .null
+  | .rat r => ratJ r
+  | .xrat x => xratJ x
+  | .amap m => pairsJ m ratJ
+  | .smap m => pairsJ m supplyVJ
+  | .bmap m => pairsJ m borrowVJ
+  | .sup v => supplyVJ v
+  | .bor v => borrowVJ v
+  | .bal b => balanceJ b
+
+def resJ (r : Res Val) : List (String × Json) :=
+  match r with
+  | .ok v => [("outcome", "ok"), ("tag", "ok"), ("result", valJ v)]
+  | .error e => [("outcome", .str e.cls), ("tag", .str e.tag), ("result", .null)]
+
+/-- the driver's arithmetic: CPython Decimal (`py`) or exact rationals (`exact`; `**` still `dpowNat`,
+    an exact 31 536 000-th power of a rational is not representable) -/
+def actx (j : Json) : ACtx :=
+  match j.getObjVal? "ctx" with
+  | .ok (.str "exact") => { rnd := id, dsqrt := dsqrt35, dpow := dpowNat 35 }
+  | _ => ACtx.py
+
+end AaveJ
 
 def aaveHandlers : List (String × Handler) := []
-def aaveJHandlers : List (String × JHandler) := []
+
+def aaveJHandlers : List (String × JHandler) := [
+  ("aave_step", fun j => do
+    let cx := AaveJ.actx j
+    let env ← AaveJ.env (← jObj j "env")
+    let st ← AaveJ.state (← jObj j "state")
+    let op ← AaveJ.op (← jObj j "op")
+    let (r, s') := step cx env st op
+    pure (Json.mkObj (AaveJ.resJ r ++ [("state", AaveJ.stateJ s')]))),
+  ("aave_spec", fun j => do
+    let cx := AaveJ.actx j
+    let env ← AaveJ.env (← jObj j "env")
+    let sup ← AaveJ.pairs j "supplies" AaveJ.supplyInfo
+    let bor ← AaveJ.pairs j "borrows" AaveJ.borrowInfo
+    let v ← AaveJ.view j
+    pure (Json.mkObj (AaveJ.resJ (specView cx env sup bor v))))
+]
 
 end Demeter.Drv
